@@ -28,9 +28,10 @@ type Row struct {
 }
 
 type Cond struct {
-	Kind string `json:"kind"` // all | mod | gt | none
+	Kind string `json:"kind"` // all | mod | gt | none | ormodgt
 	A    int64  `json:"a"`
 	B    int64  `json:"b"`
+	C    int64  `json:"c"`
 }
 type Lop struct {
 	Kind string `json:"kind"` // limit | offset
@@ -71,6 +72,8 @@ func chain(db *gorm.DB, in Input) *gorm.DB {
 		tx = tx.Where("id > ?", in.Cond.A)
 	case "none":
 		tx = tx.Where("1 = 0")
+	case "ormodgt":
+		tx = tx.Where("id % ? = ?", in.Cond.A, in.Cond.B).Or("id > ?", in.Cond.C)
 	}
 	switch in.Ord {
 	case "id_asc":
@@ -196,6 +199,9 @@ func run(db *gorm.DB, in Input) Obs {
 	if in.BS > 0 {
 		var batch []Item
 		r := chain(db, in).FindInBatches(&batch, int(in.BS), func(tx *gorm.DB, n int) error {
+			if len(o.Batches) > len(in.Tbl)+3 {
+				return fmt.Errorf("runaway: more batches than rows")
+			}
 			if n != len(o.Batches)+1 {
 				o.Errs = append(o.Errs, fmt.Sprintf("batch number %d at position %d", n, len(o.Batches)+1))
 			}
@@ -229,6 +235,8 @@ func gCond(c Cond) string {
 		return lib.App("CGt", lib.Z(c.A))
 	case "none":
 		return "CNone"
+	case "ormodgt":
+		return lib.App("COrModGt", lib.Z(c.A), lib.Z(c.B), lib.Z(c.C))
 	}
 	return "CAll"
 }
@@ -297,6 +305,10 @@ func genLops(r *lib.Rng, edge bool) []Lop {
 }
 
 func genCond(r *lib.Rng) Cond {
+	if r.Chance(1, 5) {
+		m := int64(r.Range(2, 3))
+		return Cond{Kind: "ormodgt", A: m, B: int64(r.Intn(int(m))), C: int64(r.Range(2, 14))}
+	}
 	switch r.Intn(6) {
 	case 0, 1:
 		return Cond{Kind: "all"}
@@ -311,7 +323,7 @@ func genCond(r *lib.Rng) Cond {
 
 func shape(in Input) string {
 	var sb strings.Builder
-	fmt.Fprintf(&sb, "n%d|%s%d,%d|%s|", len(in.Tbl), in.Cond.Kind, in.Cond.A, in.Cond.B, in.Ord)
+	fmt.Fprintf(&sb, "n%d|%s%d,%d,%d|%s|", len(in.Tbl), in.Cond.Kind, in.Cond.A, in.Cond.B, in.Cond.C, in.Ord)
 	for _, l := range in.Lops {
 		fmt.Fprintf(&sb, "%s%d,", l.Kind[:1], l.N)
 	}
